@@ -8,6 +8,7 @@ Conformance of the simulated file system: the same operation sequences (depth <=
 by a pristine copy of journal.py on real temporary files and the resulting bytes compared.
 """
 import copy
+import hashlib
 import struct
 import os
 import shutil
@@ -92,13 +93,13 @@ class JournalModel(object):
         # the journal object's own scalar fields (write offset, dirty flag) and the file bytes are part of the
         # state: two histories with equal contents but a different write position have different futures
         hidden = tuple(sorted((k, v) for k, v in vars(b.j).items() if isinstance(v, (int, bool, bytes, str))))
-        # file bytes up to the furthest position anything points to (published end of records, in-memory write
+        # (a 128-bit digest of the) file bytes up to the furthest position anything points to (published end of records, in-memory write
         # offset): what lies beyond is written before it can be read, so it cannot change a future
         data = b.vfs.files[PATH]
         off = self.J.LAST_RECORD_OFFSET_OFFSET
         cut = struct.unpack('<I', bytes(data[off:off + 4]))[0] if len(data) >= off + 4 else len(data)
         cut = max([cut] + [v for k, v in hidden if k.endswith('currentOffset') and isinstance(v, int)])
-        return (tuple((len(c), c[:1], i, t) for c, i, t in b.ref), bytes(data[:cut]), len(data),
+        return (tuple((len(c), c[:1], i, t) for c, i, t in b.ref), hashlib.blake2b(bytes(data[:cut]), digest_size=16).digest(), len(data),
                 bytes(meta) if meta is not None else None, b.cur_commit, b.commit_set, b.depth,
                 b.crashes, hidden)
 
